@@ -25,13 +25,25 @@ CLAIMS = [
                       "(rules/order_exempt.json, each with its reason and re-checked side conditions) are right. OS-level nondeterminism "
                       "(ASLR) is excluded by the address rule.",
     },
+    {
+        "id": "C10",
+        "technique": "static analysis: MIR panic provenance, HIR diverging-arm table with who-may-construct side conditions, stripped-arena typestate, exit-path dominance",
+        "level_text": "Decides four exact necessary conditions of front-end totality: (1) no unwrap/expect of a text-to-value conversion "
+                      "outside the audited 'total on the token language' table; (2) every match arm / let-else over a zydeco syntax "
+                      "enum in the surface passes, session and check/ that can only exit by panic is a listed phase-ordering exclusion, "
+                      "and the listed payload types are constructed only by the listed producers; (3) the payload-stripped arena "
+                      "returned by ProgramAnalysis::statics() is used only through StaticsIndexes; (4) main maps Err to render + "
+                      "exit(1). Each rule fired on a confirmed defect of the pinned tree (F2, F3, F4, F10; all repaired).",
+        "level_note": "NOT decided: general panic freedom of the several hundred invariant-justified unwrap/expect/index sites, "
+                      "termination, that diagnostic locations lie inside the file. Capacity conversions (usize->u32) out of scope.",
+    },
 ]
 
 _PENDING = "check not built yet in this round (static rule designed in DESIGN.md, implementation pending)"
 NOT_APPLICABLE = [
     {"property_id": "C20", "reason": "behavioural equation through a 2800-line type-directed translation; no clause is both visible in the shape of elaborate/monadic/* and a necessary condition of the equation (DESIGN.md C20)"},
 ] + [{"property_id": p, "reason": _PENDING} for p in
-     ["C01", "C02", "C03", "C04", "C05", "C06", "C07", "C08", "C09", "C10", "C12", "C13", "C14", "C15", "C17", "C18", "C19"]]
+     ["C01", "C02", "C03", "C04", "C05", "C06", "C07", "C08", "C09", "C12", "C13", "C14", "C15", "C17", "C18", "C19"]]
 
 NOTES = ("Static analysis only: every verdict is computed from /repo's current working tree by the zyq rustc driver "
          "(facts) and repository-specific rules; nothing executes zydeco. Exit 2 (no VIOLATION line) means the tree could not "
